@@ -46,6 +46,10 @@ def states(tier, seed):
             st.append(dict(part="struct", model=model, pf=pf, ny=ny, relief=relief, pm=pm, uneq=True, fam=fam))
     for model, ny, relief, pm in itertools.product(["tube", "wingbox"], [2, 3, 4], [False, True], [False, True]):
         st.append(dict(part="structlr", model=model, ny=ny, relief=relief, pm=pm, fam=fam))
+        # ... and of an UNSWEPT wing (elastic axis exactly along y: anything that tells inboard from outboard by x ties there), also forward-swept
+        st.append(dict(part="structlr", model=model, ny=ny, relief=relief, pm=pm, pf="rect", fam=fam))
+        if relief and not pm:
+            st.append(dict(part="structlr", model=model, ny=ny, relief=relief, pm=pm, pf="fwd", fam=fam))
     # (a3) aerostruct, asymmetric
     for model, pf, ny, be, pmass in itertools.product(["tube", "wingbox"], ["swept", "twdi"], [5] if tier == "quick" else [5, 7], [0.0, 4.0], [False, True]):
         st.append(dict(part="as", model=model, pf=pf, ny=ny, beta=be, pmass=pmass, fam=fam))
@@ -163,7 +167,11 @@ def part_structlr(s):
     """a left-half and a right-half symmetric STRUCTURAL model of the same wing (mirrored loads, reversed control points) agree.
     Planform without z-slope of the reference axis (the Geometry group's Rotate moves right-half meshes otherwise: known F7r)."""
     fam, ny = s["fam"], s["ny"]
-    mL = gen.make_mesh("swept", 2, ny, "left", fam, span=10.0, chord=1.6)
+    mL = gen.make_mesh("rect" if s.get("pf") in ("rect", "fwd") else "swept", 2, ny, "left", fam, span=10.0, chord=1.6)
+    if s.get("pf") == "rect":
+        mL[:, :, 0] = mL[:, -1:, 0]  # exactly untapered and unswept
+    if s.get("pf") == "fwd":
+        mL[:, :, 0] -= 0.3 * np.abs(mL[:, :, 1] - mL[0, -1, 1])  # forward sweep
     mR = gen.mirror_mesh(mL)
     loads = np.zeros((ny, 6))
     loads[:, :3] = gen.gen((ny, 3), 3, -2e3, 4e3, fam)
